@@ -18,7 +18,7 @@ LEVEL_TEXT = ("Machine-checked theorems over the Lean models of Line_Buffer (inp
               "list, for EVERY text (frame property through all command parsers); blanks before a command are skipped, '|' is skipped, everything after ';' is ignored, a "
               "';' line changes nothing; a multi-track line is the sequence of per-track parses of the same column range with track_offset = index. (2) Whole layouts, for "
               "command lists of the covered subset LCovered = the subset C05 covers (notes a-h with accidental and every duration form, r ^ l o < > Q q C s &) widened in "
-              "Proofs/LayoutCmd by D n and the event commands [ L, ] ( ) with or without number, * @ v p K E M P G t T with number (hypothesis CmdsOk: numbers are "
+              "Proofs/LayoutCmd by D n and the event commands [ L, ] ( ) with or without number, * @ v p K E M P G t T _ __ k % with number (hypothesis CmdsOk: numbers are "
               "ints the command accepts, & finds its note): C06_layout_run_partial - ANY layout (any blanks/tabs/bars between commands, a separator dropped where the spelling stays "
               "unambiguous, ';' comments, any split into header / continuation / empty / comment lines, track lists written with letters, digits or *n) addressed to "
               "distinct tracks is accepted and gives every listed track exactly the builder calls of the command list in order, no other track changes; "
@@ -27,7 +27,7 @@ LEVEL_TEXT = ("Machine-checked theorems over the Lean models of Line_Buffer (inp
               "the track at position j receives the plain commands and alternative j of every block, equal to its single-track lines, when no alternative contains '/', "
               "';', '}' or NUL and every block has an alternative per track (that hypothesis is defect D16, proved as two counterexamples and recorded as known findings). "
               "Results are stated modulo the source references (line, column) stamped on the track, which necessarily differ between layouts. NOT proved: the same "
-              "statements for the commands outside the covered subset (R ~ \\ \\= _ __ _{..} k V % '...' and the loop break /); they are kept as "
+              "statements for the commands outside the covered subset (R ~ \\ \\= _{..} V '...' and the loop break /); they are kept as "
               "C06_full_statement_layout_invariant / C06_full_statement_multitrack_eq_single and decided per generated case by the metamorphic correspondence stream (every "
               "layout of every generated stream parsed by the real code and by the model, the spec demanding equal events per track across layouts and equality with "
               "the meaning of each track's command list).")
@@ -379,9 +379,9 @@ def corpus_streams():
                            ("b", [[], [Cmd(">"), n_("f")], []]), ("b", [[n_("g")], [n_("a")], [n_("b")]])])], [
         ["ABC o4{c/d+/g} | {d l8/ /a:12} e", " {/>f/}{g/a/b};x"], ["A o4 c d l8 e g", "B o4 d+ e", " > f a", "C o4 g a:12 e b"]]
     X = lambda name, v=None: Cmd("x", name, None if v is None else Num(v))
-    evs = [X("tempoBpm", 120), X("ins", 3), X("vol", 12), X("loopStart"), n_("c"), X("volDown"), n_("d"), X("volUp", 2), X("loopEnd", 4), X("segno"), X("pan", -1)]
+    evs = [X("tempoBpm", 120), X("ins", 3), X("vol", 12), X("loopStart"), n_("c"), X("volDown"), n_("d"), X("volUp", 2), X("loopEnd", 4), X("segno"), X("pan", -1), X("transpose", 2), X("transposeRel", -1), X("kTranspose", 3), X("platform", 5)]
     yield [Seg([0, 1], [("c", c_) for c_ in evs])], [
-        ["AB t120 @3 v12 [c(d)2]4 L p-1"], ["B t120|@3\tv12 [ c ( d )2 ]4", " L p-1 ;end", "A t120|@3\tv12 [ c ( d )2 ]4", " L p-1 ;end"]]
+        ["AB t120 @3 v12 [c(d)2]4 L p-1 _2 __-1 k3 %5"], ["B t120|@3\tv12 [ c ( d )2 ]4", " L p-1 _2|__-1 k3\t%5 ;end", "A t120|@3\tv12 [ c ( d )2 ]4", " L p-1 _2|__-1 k3\t%5 ;end"]]
     # hexadecimal numbers need their blank
     yield [Seg([0], [("c", n_("g", ("L", Num(12, True), 0))), ("c", n_("e")), ("c", Cmd("x", "vol", Num(10, True))), ("c", n_("a"))])], [
         ["A g$c e v$a a"], ["A g$c|e|v$a|a"], ["A g$c\te v$a", " a"]]
